@@ -415,7 +415,30 @@ fn value_payload(rng: &mut Rng) -> String {
     while s.contains("//") || s.contains("/*") {
         s = s.replace("//", "/ /").replace("/*", "/ *");
     }
-    s
+    // Since the literal-masking repair (d181cbd) the BODY of a complete '…' / "…" literal is hidden from the value
+    // classifier. The RV/RA entry models do not go through the masker yet, so bodies of complete literals are
+    // kept to letters here (letters, including multi-byte ones, classify the same hidden or visible); the masker
+    // itself is exercised by the GRL-level entries and the robustness search.
+    let cs: Vec<char> = s.chars().collect();
+    let mut out = String::new();
+    let mut i = 0;
+    while i < cs.len() {
+        let c = cs[i];
+        if c == '"' || c == '\'' {
+            if let Some(j) = (i + 1..cs.len()).find(|&j| cs[j] == c) {
+                out.push(c);
+                for &b in &cs[i + 1..j] {
+                    out.push(if b.is_alphabetic() { b } else { 'x' });
+                }
+                out.push(c);
+                i = j + 1;
+                continue;
+            }
+        }
+        out.push(c);
+        i += 1;
+    }
+    out
 }
 
 fn gen(rng: &mut Rng, n: usize, _tier: &str) -> Vec<String> {
